@@ -269,7 +269,7 @@ fn calling_conventions(ir: &str) -> (Vec<String>, Vec<String>)
 }
 
 /// alpha <mode> <filename> <source> [<filename> <source>]...
-/// mode: check | ir | verify | run | wasm ; suffix `+ir` appends the linked IR as hex
+/// mode: check | ir | verify | run | wasm ; suffix `+ir` appends the linked IR as hex, `+mods` every module's IR
 pub fn alpha(fields: &[&str]) -> String
 {
 	if fields.is_empty()
@@ -280,6 +280,12 @@ pub fn alpha(fields: &[&str]) -> String
 	{
 		Some(m) => (m, true),
 		None => (fields[0], false),
+	};
+	// `+mods`: append every module's own IR (the linker drops unreferenced private functions)
+	let (mode, want_mods) = match mode.strip_suffix("+mods")
+	{
+		Some(m) => (m, true),
+		None => (mode, false),
 	};
 	let units = parse_units(&fields[1..]);
 	let depth = if mode == "check" { 0 } else { 1 };
@@ -377,7 +383,7 @@ pub fn alpha(fields: &[&str]) -> String
 			}
 		}
 	}
-	if mode == "irs"
+	if mode == "irs" || want_mods
 	{
 		let parts: Vec<String> = o.module_irs.iter().map(|ir| format!("h:{}", hex(ir.as_bytes()))).collect();
 		s.push_str(&format!(" mods={}", parts.join(";")));
